@@ -2,8 +2,10 @@
 Frame lists through flv.NewMuxer + flv.Writer (straight, and as a client joining at media
 tag k sees them), compared byte for byte with the extracted Gallina model; the proved oracle
 (independent FLV/AMF0 reader + faithfulness checks) is applied to the implementation's bytes."""
-import base64, re, struct
+import base64, os, re, struct, sys
 import vlib
+sys.path.insert(0, os.path.dirname(os.path.abspath(__file__)))
+import c15
 
 MS = 1000000
 DATE0 = b"0" * 20
@@ -23,30 +25,78 @@ HEVC_SETS = [
 ]
 
 def hevc_sets(ck):
-    """(vps, sps, pps, general fields as the implementation computes them) — the hvcC general fields
-    are taken from the implementation (oracle input, see design/C08.md)"""
+    """(vps, sps, pps, derive_ok): the three parameter-set triples of the repository's tests, triples the
+    decoder rejects, triples with a set still unknown, and VPS/SPS pairs emitted by the Gallina encoder
+    from random field values (C15 generators: sub-layers 0..6, sub-layer profile/level flags, every
+    profile_idc incl. Main/Main10/RExt, chroma 4:0:0..4:4:4, bit depths, VUI timing, cropping).
+    The expected hvcC general fields and meta data always come from the model, never from the Go parser."""
     def dec(x):
         b = base64.b64decode(x)
         return b[4:] if b.startswith(b"\x00\x00\x00\x01") else b
-    sets = [tuple(dec(x) for x in t) for t in HEVC_SETS]
-    # parameter sets the decoder rejects: the record keeps its partial fields
-    sets.append((b"\x40\x01\x0c", b"\x42\x01\x01", b"\x44\x01"))
-    sets.append((sets[0][0], sets[1][1], b""))
-    # a parameter set still unknown: the muxer must drop every frame
-    sets.append((b"", sets[1][1], sets[1][2]))
-    sets.append((sets[0][0], b"", sets[0][2]))
-    lines = [vlib.vs(list(t)) for t in sets]
-    obs = vlib.run_vh(ck.prop, "hvcc", lines)
-    out = []
-    for t, o in zip(sets, obs):
-        v = vlib.vparse(o)
-        out.append(t + ((v if isinstance(v, bytes) else b""),))
-    return out
+    sets = [tuple(dec(x) for x in t) + (False,) for t in HEVC_SETS]
+    sets.append((b"\x40\x01\x0c", b"\x42\x01\x01", b"\x44\x01", False))
+    sets.append((sets[0][0], sets[1][1], b"", False))
+    sets.append((b"", sets[1][1], sets[1][2], False))
+    sets.append((sets[0][0], b"", sets[0][2], False))
+    recs = gen_hevc_records(ck.rng, 120 if ck.thorough else 45)
+    out = vlib.run_driver(ck.prop, "C08_hevc_emit", [vlib.vs([c15.rec_val(v), c15.rec_val(s)]) for v, s in recs])
+    gen = []
+    for (v, s), o in zip(recs, out):
+        r = vlib.vparse(o)
+        if r and r[2] == 1:
+            gen.append((v, s, r[0], r[1]))
+    ck.extra["hevc_generated_pairs"] = len(gen)
+    for v, s, nv, ns in gen:
+        sets.append((nv, ns, bytes([0x44, 0x01]) + bytes(ck.rng.randrange(256) for _ in range(ck.rng.randint(1, 6))), True))
+    return sets, gen
+
+def gen_hevc_records(rng, n):
+    recs = []
+    for i in range(n):
+        s = c15.gen_h265(rng)
+        v = c15.gen_vps(rng)
+        K = c15.K
+        # the record holds 3-bit depths; RPS inter prediction is outside the decoder (D30)
+        s[K(130)] = rng.choice([0, 0, 2, 4, rng.randint(0, 7)])
+        s[K(131)] = rng.choice([0, 0, 2, 4, rng.randint(0, 7)])
+        mode = i % 4
+        if mode in (0, 1):
+            # a coherent stream: the VPS repeats the SPS's sub-layer count and profile_tier_level
+            ms = rng.randint(1, 6) if mode == 0 else s[K(105)]
+            for r in (s, v):
+                for k in list(r):
+                    if 110 <= k // 65536 <= 119 or k // 65536 in (133, 134, 135, 136):
+                        del r[k]
+            s[K(105)] = ms
+            v[K(105)] = ms
+            v[K(106)] = 1 if ms == 0 else v.get(K(106), 1)
+            c15.gen_ptl(rng, s, ms)
+            s[K(112, 0)] = rng.choice([1, 2, 4, 4, 3, 9])            # Main, Main10, RExt, ...
+            for k in list(s):
+                if 110 <= k // 65536 <= 119:
+                    v[k] = s[k]
+            c15.gen_slo(rng, s, ms)
+            c15.gen_slo(rng, v, ms)
+            # hrd loops depend on the sub-layer count: drop timing/hrd so the records stay well-formed
+            for r in (s, v):
+                for k in list(r):
+                    if 220 <= k // 65536 <= 244 or k // 65536 in (201, 202, 203, 204, 205, 206, 266, 267, 268, 269, 270, 271, 272, 273):
+                        del r[k]
+            if rng.random() < 0.7:
+                s[K(175)] = 1
+                s[K(201)] = 1
+                s[K(202)] = rng.choice([1, 1001, 1000])
+                s[K(203)] = rng.choice([25, 30000, 60000, 24000])
+        recs.append((v, s))
+    return recs
 
 def gen_cfg(rng, hs, malformed=False):
     hevc = rng.random() < 0.35
+    derive = False
     if hevc:
-        vps, sps, pps, hv = rng.choice(hs)
+        vps, sps, pps, dok = rng.choice(hs)
+        hv = b""
+        derive = dok and rng.random() < 0.6
     else:
         n = rng.choice([4, 4, 5, 9, 16, 30, 60])
         if malformed and rng.random() < 0.5:
@@ -68,7 +118,7 @@ def gen_cfg(rng, hs, malformed=False):
             rng.choice([8, 16, 16, 0, 24]) if aac else 0,
             rng.choice([0, 1, 2, 2, 6]) if aac else 0,
             f64bits(rng.choice([0, 64, 128, 96.5])) if aac else 0,
-            DATE0]
+            DATE0, derive]
 
 def ns_of(rng, ms):
     # a ns value whose Go-truncated ms is `ms`
@@ -149,7 +199,7 @@ def nontrivial(c):
     return len(emitting(c[0], c[1])) - c[2] >= 3
 
 H264_CFG = [False, bytes([0x67, 0x42, 0xc0, 0x1e, 0xd9]), bytes([0x68, 0xce, 0x3c, 0x80]), b"", b"",
-            640, 480, f64bits(25), f64bits(512), True, bytes([0x12, 0x10]), 44100, 16, 2, f64bits(64), DATE0]
+            640, 480, f64bits(25), f64bits(512), True, bytes([0x12, 0x10]), 44100, 16, 2, f64bits(64), DATE0, False]
 
 def d17_cases():
     """a client joins at a key frame; the next audio tag is slightly older (probe-confirmed D17:
@@ -170,7 +220,7 @@ def gen_fan(rng, hs):
     in an order chosen by the case"""
     while True:
         cfg = gen_cfg(rng, hs)
-        known = (len(cfg[3]) > 0 and len(cfg[1]) > 0 and len(cfg[2]) > 0 and len(cfg[4]) == 21) if cfg[0] \
+        known = (len(cfg[3]) > 0 and len(cfg[1]) > 0 and len(cfg[2]) > 0) if cfg[0] \
             else (len(cfg[1]) >= 4 and len(cfg[2]) > 0)
         if known:
             break
@@ -208,7 +258,7 @@ def run(ck):
     if not ck.prepare():
         return ck.finish(rule="build failed")
     rng = ck.rng
-    hs = hevc_sets(ck)
+    hs, hgen = hevc_sets(ck)
     n = 4000 if ck.thorough else 420
     nmax = 60 if ck.thorough else 24
     cases = d17_cases() + [gen_case(rng, hs, nmax, True) for _ in range(n)]
@@ -217,6 +267,12 @@ def run(ck):
     bad = [gen_case(rng, hs, 10, False, malformed=True) for _ in range(n // 6)]
     ck.stream("malformed", bad, "C08_run", "C08", "C08_ok", project=project,
               nontrivial=lambda c: True, sig=lambda c, e, o: "flv-stream-malformed", sample=2)
+    # the HEVC decoder configuration record against the field values the parameter sets were emitted from
+    hv = [[c15.rec_val(v), c15.rec_val(s), nv, ns, b"\x44\x01\xc0"] for v, s, nv, ns in hgen]
+    ck.stream("hvcc", hv, "C08_hvcc_run", "hvcc5", "C08_hvcc_ok", nontrivial=lambda c: True,
+              sig=lambda c, e, o: "hevc-config-record", sample=2)
+    if len(hgen) < 20:
+        ck.fail("hvcc", "generator", "", note="only %d well-ranged H.265 VPS/SPS pairs generated" % len(hgen))
     fans = [gen_fan(rng, hs) for _ in range(1500 if ck.thorough else 250)]
     ck.stream("fanout", fans, "C08_fan_run", "C08fan", "C08_fan_ok", project=project,
               nontrivial=lambda c: sum(1 for e in c[2] if e[0] == 1) >= 2 and sum(1 for e in c[2] if e[0] == 2) >= 3,
